@@ -46,13 +46,17 @@ def sh(cmd, cwd=None, env=None, timeout=None, capture=True):
 
 
 class Lock:
-    def __init__(self, name):
+    """flock on build/.<name>.lock; shared=True for readers (evaluation of case files against the compiled .vo
+    files), exclusive for whoever may rewrite them (make)."""
+
+    def __init__(self, name, shared=False):
         os.makedirs(BUILD, exist_ok=True)
         self.path = os.path.join(BUILD, "." + name + ".lock")
+        self.mode = fcntl.LOCK_SH if shared else fcntl.LOCK_EX
 
     def __enter__(self):
-        self.f = open(self.path, "w")
-        fcntl.flock(self.f, fcntl.LOCK_EX)
+        self.f = open(self.path, "a")
+        fcntl.flock(self.f, self.mode)
         return self
 
     def __exit__(self, *a):
@@ -112,10 +116,33 @@ def coq_make(clean=False):
     if old != proj or not os.path.exists(os.path.join(COQ, "Makefile")):
         open(pp, "w").write(proj)
         sh("coq_makefile -f _CoqProject -o Makefile", cwd=COQ, timeout=120)
-    if clean:
-        sh("make clean", cwd=COQ, timeout=300)
     rc, out, dt = sh("timeout 3000 make -k -j16", cwd=COQ, timeout=3100)
     return rc, out, dt
+
+
+def coq_clean_build(mods, coqchk_lib=None):
+    """Thorough tier: build the whole development from scratch in a private copy of the sources (so that checks
+    running concurrently keep their compiled files), verify that the given modules are produced, and optionally run
+    coqchk on one library there.  Returns (ok, log, coqchk_rc, coqchk_out, seconds)."""
+    t0 = time.time()
+    d = os.path.join(BUILD, "coq_clean_%d" % os.getpid())
+    shutil.rmtree(d, ignore_errors=True)
+    with Lock("coq", shared=True):
+        srcs = coq_sources()
+        for rel in srcs:
+            os.makedirs(os.path.join(d, os.path.dirname(rel)), exist_ok=True)
+            shutil.copy(os.path.join(COQ, rel), os.path.join(d, rel))
+    open(os.path.join(d, "_CoqProject"), "w").write("-Q . Canto\n" + "\n".join(srcs) + "\n")
+    sh("coq_makefile -f _CoqProject -o Makefile", cwd=d, timeout=120)
+    rc, out, _ = sh("timeout 3000 make -k -j16", cwd=d, timeout=3100)
+    missing = [m for m in mods if not os.path.exists(os.path.join(d, m + ".vo"))]
+    ok = not missing
+    log_txt = out[-3000:] if missing else ""
+    chk_rc, chk_out = None, None
+    if ok and coqchk_lib:
+        chk_rc, chk_out, _ = sh(["coqchk", "-silent", "-o", "-Q", ".", "Canto", coqchk_lib], cwd=d, timeout=7200)
+    shutil.rmtree(d, ignore_errors=True)
+    return ok, ("missing after clean build: %s\n%s" % (missing, log_txt)) if missing else "", chk_rc, chk_out, time.time() - t0
 
 
 def coq_current(mod):
@@ -150,9 +177,36 @@ def theorem_names(mod):
 # ---------------------------------------------------------------- harness
 
 def build_harness():
+    """Build the harness against REPO's working tree.  The binary is stored under a content hash and never
+    overwritten, so a check running concurrently (possibly against another tree) keeps executing its own binary."""
+    global HARNESS_BIN
     gomod.derive(REPO, os.path.join(ROOT, "harness"))
-    os.makedirs(BUILD, exist_ok=True)
-    rc, out, dt = sh(["go", "test", "-c", "-tags", "verif", "-o", HARNESS_BIN, "."], cwd=os.path.join(ROOT, "harness"), env=GOENV, timeout=3000)
+    bindir = os.path.join(BUILD, "bin")
+    os.makedirs(bindir, exist_ok=True)
+    tmp = os.path.join(bindir, "harness.tmp.%d" % os.getpid())
+    rc, out, dt = sh(["go", "test", "-c", "-tags", "verif", "-o", tmp, "."], cwd=os.path.join(ROOT, "harness"), env=GOENV, timeout=3000)
+    if rc != 0 or not os.path.exists(tmp):
+        if os.path.exists(tmp):
+            os.remove(tmp)
+        return (rc or 1), out, dt
+    h = hashlib.sha256()
+    with open(tmp, "rb") as f:
+        for chunk in iter(lambda: f.read(1 << 20), b""):
+            h.update(chunk)
+    final = os.path.join(bindir, "harness-%s.test" % h.hexdigest()[:16])
+    if os.path.exists(final):
+        os.remove(tmp)
+        os.utime(final, None)
+    else:
+        os.replace(tmp, final)
+    HARNESS_BIN = final
+    # keep the four most recently used binaries
+    olds = sorted(glob.glob(os.path.join(bindir, "harness-*.test")), key=os.path.getmtime, reverse=True)
+    for o in olds[4:]:
+        try:
+            os.remove(o)
+        except OSError:
+            pass
     return rc, out, dt
 
 
@@ -180,7 +234,7 @@ def eval_cases(outdir):
         return path, rc, out
 
     diffs, errors = [], []
-    with ThreadPoolExecutor(max_workers=int(os.environ.get("VERIF_JOBS", "12"))) as ex:
+    with Lock("coq", shared=True), ThreadPoolExecutor(max_workers=int(os.environ.get("VERIF_JOBS", "12"))) as ex:
         for path, rc, out in ex.map(one, shards):
             m = re.search(r"^M\s*=\s*(.*?)^\s*:\s*list diff", out, re.M | re.S)
             if rc != 0 or not m:
@@ -313,7 +367,7 @@ def check_property(prop, tier, seed):
         ok_gen, gen_msg = gen_kernels()
         if not ok_gen and cfg.get("agree"):
             problems.append(("translator", "gokernel refused the current source of a kernel used by this property", gen_msg))
-        rc, out, dt = coq_make(clean=(tier == "thorough" and os.environ.get("VERIF_NO_CLEAN") != "1"))
+        rc, out, dt = coq_make()
         checker_cmds.append("coq_makefile -f _CoqProject -o Makefile && make -k -j16   (in /verif/coq, full .vo build)")
         make_log = out
         mods = list(cfg["coq"]) + list(cfg.get("agree", []))
@@ -345,14 +399,17 @@ def check_property(prop, tier, seed):
     n_closed = pa_text.count("Closed under the global context")
 
     coqchk_out = None
-    if tier == "thorough" and current.get(pmod) and os.environ.get("VERIF_NO_COQCHK") != "1":
-        with Lock("coq"):
-            lib = "Canto." + pmod.replace("/", ".")
-            rc, out, dt = sh(["coqchk", "-silent", "-o", "-Q", ".", "Canto", lib], cwd=COQ, timeout=7200)
-            checker_cmds.append("coqchk -silent -o -Q . Canto %s  (%.0f s, rc=%d)" % (lib, dt, rc))
-            coqchk_out = out[-3000:]
-            if rc != 0:
-                problems.append(("coqchk", "coqchk rejects the compiled closure of " + lib, out[-3000:]))
+    if tier == "thorough" and current.get(pmod) and os.environ.get("VERIF_NO_CLEAN") != "1":
+        lib = "Canto." + pmod.replace("/", ".") if os.environ.get("VERIF_NO_COQCHK") != "1" else None
+        ok_c, log_c, chk_rc, chk_out, dt = coq_clean_build(mods, lib)
+        checker_cmds.append("clean rebuild in a private copy: coq_makefile && make -k -j16 from scratch (%.0f s, ok=%s)" % (dt, ok_c))
+        if not ok_c:
+            problems.append(("proof", "clean rebuild from scratch does not produce the property's modules", log_c))
+        if chk_rc is not None:
+            checker_cmds.append("coqchk -silent -o -Q . Canto %s  (rc=%d)" % (lib, chk_rc))
+            coqchk_out = chk_out[-3000:]
+            if chk_rc != 0:
+                problems.append(("coqchk", "coqchk rejects the compiled closure of " + lib, chk_out[-3000:]))
 
     # 2. implementation side --------------------------------------------------
     with Lock("go"):
